@@ -45,6 +45,7 @@ type c12SimIn struct {
 	Clean    bool     `json:"clean"`    // loss-free, never app-limited: throughput is reported
 	MaxPkts  int64    `json:"maxPkts"`  // > 0: built with newBbrSender and this maximum window (datagrams) instead of NewBbrSender's
 	IcwPkts  int64    `json:"icwPkts"`  // > 0 (with maxPkts): initial window in datagrams (default initialCongestionWindowPackets)
+	ReplayMax int     `json:"replayMax"` // > 0: the first replayMax calls are recorded for the whole-trace replay (c12_replay_test.go)
 }
 
 type c12Clock struct{ now *int64 }
@@ -144,6 +145,11 @@ func c12Sim(in *c12SimIn, res map[string]any) {
 	}
 	b.SetRTTStatsProvider(rtt)
 	agg := b.enableAckAggregationDuringStartup
+	var rec *c12Replay
+	if in.ReplayMax > 0 {
+		rec = c12NewReplay(in.ReplayMax)
+		rec.record(b, 3, now, int64(rtt.min), nil, nil)
+	}
 
 	ok, why := true, ""
 	evNo := 0
@@ -298,6 +304,7 @@ func c12Sim(in *c12SimIn, res map[string]any) {
 			fail("panic in OnPacketSent: " + msg)
 			return
 		}
+		rec.record(b, 0, now, int64(rtt.min), []int64{bytesInFlight, pn, size, c12B(retx)}, nil)
 		verdict()
 		if wantDump(false, bindingNow(), 4) || (!ok && len(dumps) < in.DumpMax+8) { // the event that fails the verdict is always dumped
 			d := append([]int64{0}, before...)
@@ -406,6 +413,16 @@ func c12Sim(in *c12SimIn, res map[string]any) {
 			fail("panic in OnCongestionEventEx: " + msg)
 			return
 		}
+		if rec.active() {
+			var pk [][2]int64
+			for _, a := range ai {
+				pk = append(pk, [2]int64{int64(a.PacketNumber), int64(a.BytesAcked)})
+			}
+			for _, l := range li {
+				pk = append(pk, [2]int64{int64(l.PacketNumber), int64(l.BytesLost)})
+			}
+			rec.record(b, 1, now, int64(rtt.min), []int64{prior, c12RndOf(b), int64(len(ai)), int64(len(li))}, pk)
+		}
 		if len(ai) != 0 {
 			lastLeast = int64(ai[len(ai)-1].PacketNumber) - 2
 		} else {
@@ -458,6 +475,7 @@ func c12Sim(in *c12SimIn, res map[string]any) {
 					fail("panic in SetMaxDatagramSize: " + msg)
 					break
 				}
+				rec.record(b, 2, now, int64(rtt.min), []int64{s}, nil)
 				if len(dumps) < in.DumpMax+8 {
 					d := append([]int64{2}, before...)
 					d = append(d, s)
@@ -610,6 +628,16 @@ func c12Sim(in *c12SimIn, res map[string]any) {
 	res["dumps"] = dumps
 	res["trace"] = trace
 	res["consistent"] = consistent
+	if rec != nil {
+		res["replay"] = rec.lits
+		res["replayEvents"] = rec.n
+		if rec.over != "" {
+			res["replayOver"] = rec.over
+		}
+		if rec.debug {
+			res["replayObs"] = rec.full
+		}
+	}
 	modes := []int{}
 	for m := range modesSeen {
 		modes = append(modes, m)
